@@ -106,18 +106,23 @@ let fnv64 (s : string) =
   String.iter (fun c -> h := Int64.mul (Int64.logxor !h (Int64.of_int (Char.code c))) 0x100000001b3L) s;
   Printf.sprintf "%016Lx" !h
 let index_of x l = let rec go i = function [] -> -1 | y :: r -> if y = x then i else go (i + 1) r in go 0 l
+(* the stages of the other packages (Gallina: ww_foreign of the world) *)
+let foreign : cw_pfile list ref = ref []
+let world () = { ww_store = !store; ww_foreign = !foreign }
 let tree_str () =
   let keys = List.map (fun (t, n) -> key t n) !tracked in
   let tr = cw_ftree_of keys !store in
-  if tr = [] then "-" else
-    String.concat "," (List.map (fun (k, c) -> Printf.sprintf "T%d:%s" (index_of k keys) (fnv64 (cws c))) tr)
+  let ts = List.map (fun (k, c) -> Printf.sprintf "T%d:%s" (index_of k keys) (fnv64 (cws c))) tr in
+  let ps = List.sort compare (List.map (fun (_, (k, c)) -> (index_of k keys, fnv64 (cws c))) !foreign) in
+  let ps = List.map (fun (i, d) -> Printf.sprintf "P%d:%s" i d) ps in
+  if ts @ ps = [] then "-" else String.concat "," (ts @ ps)
 (* objects that are not (yet) tracked by the script - vdrive folds them into its "others" digest *)
 let untracked () = List.filter (fun o -> not (List.exists (fun (t, n) -> key t n = o.co_key) !tracked)) (!store).cs_objs
 let others_base = ref []
 let store_line () =
   let b = Buffer.create 80 in
   List.iter (fun (t, n) -> Buffer.add_string b (Printf.sprintf " %s:%s=%s" t (hex_enc n) (flags_str (cw_flags_of !store (key t n))))) !tracked;
-  Buffer.add_string b (Printf.sprintf " nobj=%d nfiles=%d files=%s g=same others=same" (List.length (!store).cs_objs) (List.length (!store).cs_files) (tree_str ()));
+  Buffer.add_string b (Printf.sprintf " nobj=%d nfiles=%d files=%s g=same others=same" (List.length (!store).cs_objs) (List.length (!store).cs_files + List.length !foreign) (tree_str ()));
   let r = Buffer.contents b in
   if untracked () = !others_base then r else String.concat "others=CHANGED" (Str.split_delim (Str.regexp_string "others=same") r)
 let () = track_hook := (fun () -> others_base := untracked ())
@@ -190,7 +195,7 @@ let op_cw_create a =
          else (CwoOk (it.cwi_name, deps), obj)) in
   let (st', res) = match cfg with
     | None -> (!store, CwrFail)                  (* CreateObjectConfig throws: nothing was written *)
-    | Some c -> cw_create !store (cwb ty) (cwb name) nc c outcome in
+    | Some c -> let (w, r) = cw_wcreate (world ()) (cwb ty) (cwb name) nc c outcome in foreign := w.ww_foreign; (w.ww_store, r) in
   store := st';
   let b = Buffer.create 80 in
   Buffer.add_string b ("cw_create res=" ^ (match res with CwrOk -> "ok" | _ -> "fail"));
@@ -220,13 +225,18 @@ let op_cw_static a =
   let deps = List.map (fun (t, n) -> key t n) must_refs in
   let deps_ok = List.for_all (fun d -> (cw_flags_of !store d).fl_obj) deps in
   if exists || not deps_ok then emit ("cw_static res=fail" ^ store_line ())
+  else if has a "pkg" then begin
+    (* deployed through the config package with that name: the Gallina world decides what it is *)
+    let w = cw_wload (world ()) k (nc_kind ty <> 0) deps (CwPkg (hexb (str a "pkg" "-"))) (hexb (str a "text" "-")) in
+    store := w.ww_store; foreign := w.ww_foreign; emit ("cw_static res=ok" ^ store_line ())
+  end
   else begin store := cw_add_static !store k (nc_kind ty <> 0) deps; emit ("cw_static res=ok" ^ store_line ()) end
 
 let op_cw_delete a =
   let ty = str a "type" "Host" and name = hex_dec (str a "name" "-") in
   track ty name;
-  let (st', res) = cw_delete !store (key ty name) (num a "cascade" 0 <> 0) in
-  store := st';
+  let (w, res) = cw_wdelete (world ()) (key ty name) (num a "cascade" 0 <> 0) in
+  store := w.ww_store; foreign := w.ww_foreign;
   emit ("cw_delete res=" ^ (match res with CwrOk -> "ok" | CwrFail -> "fail" | CwrNoSuch -> "nosuch") ^ store_line ())
 
 let op_cw_global _ = emit "cw_global ok"
@@ -235,8 +245,8 @@ let op_cw_global _ = emit "cw_global ok"
    (every reference of a run-time object resolves) *)
 let op_cw_restart _ =
   let st = !store in
-  if List.exists (fun o -> not o.co_runtime) st.cs_objs then emit "cw_restart res=skipped" else
-  let rt = List.filter (fun o -> o.co_runtime) st.cs_objs in
+  if List.exists (fun o -> not (co_runtime o)) st.cs_objs then emit "cw_restart res=skipped" else
+  let rt = List.filter co_runtime st.cs_objs in
   let has_file k = List.exists (fun (k', _) -> k' = k) st.cs_files in
   let missing = List.length (List.filter (fun o -> not (has_file o.co_key)) rt) in
   let extra = List.length (List.filter (fun (k, _) -> not (List.exists (fun o -> o.co_key = k) rt)) st.cs_files) in
@@ -265,6 +275,11 @@ let parse_tree (trk : (string * string) list) (s : string) : (cw_key * n list) l
       let k = if String.length id > 1 && id.[0] = 'T' then
           (match int_of_string_opt (String.sub id 1 (String.length id - 1)) with
            | Some i when i < List.length trk -> let (t, n) = List.nth trk i in key t n
+           | _ -> (cwb "?", cwb id))
+        else if String.length id > 1 && id.[0] = 'P' then
+          (* a file deployed through ANOTHER package: never the file of a runtime object, whoever it declares *)
+          (match int_of_string_opt (String.sub id 1 (String.length id - 1)) with
+           | Some i when i < List.length trk -> let (t, n) = List.nth trk i in (cwb ("P!" ^ t), cwb n)
            | _ -> (cwb "?", cwb id))
         else (cwb "?", cwb id) in
       (k, cwb dg)) (String.split_on_char ',' s)
@@ -413,8 +428,11 @@ let oracle_c17_case script trace =
                fail li op (int_of_n (cw_orc_delete b))
              end else begin
                if not (gsame && osame) then fail li op 12;
-               (* loading ordinary configuration never touches the package *)
-               if not (cw_ftree_eqb !prev_tree tree) then fail li op 14;
+               (* loading ordinary configuration never touches the packages; deploying through a package adds exactly its own file *)
+               let own = if not (has a "pkg") then None
+                 else if hex_dec (str a "pkg" "-") = "_api" then Some (key ty name) else Some (cwb ("P!" ^ ty), cwb name) in
+               let tree' = match own with Some k when res = "ok" -> cw_fremove k tree | _ -> tree in
+               if not (cw_ftree_eqb !prev_tree tree') then fail li op 14;
                if res = "ok" then begin
                  let sattrs = if ty = "Dependency" then
                      DCons (cwb "parent_host_name", CwStr (cwb (if has a "parent" then hex_dec (str a "parent" "-") else fst (split_bang name))), DNil) else DNil in
@@ -440,5 +458,5 @@ let () =
   register_op "cw_delete" op_cw_delete;
   register_op "cw_global" op_cw_global;
   register_op "cw_restart" op_cw_restart;
-  register_case_end (fun () -> store := cw_store0; tracked := []; others_base := []);
+  register_case_end (fun () -> store := cw_store0; foreign := []; tracked := []; others_base := []);
   register_oracle "C17" oracle_c17_case
